@@ -3,7 +3,7 @@
    on every run) and about the hand-written model of the loop / line-of-sight code (Model/C07_geodesy.v).
    ONLY statements, `exact <lemma>`, non-vacuity examples and Print Assumptions.  Angles are degrees, as in the code. *)
 From Coq Require Import Reals Lra List String.
-From Typhon Require Import Base.RealAux Model.C07_geodesy Proofs.C07_geodesy.
+From Typhon Require Import Base.RealAux Model.C07_geodesy Proofs.C07_geodesy Proofs.C07_iteration.
 From TyphonGen Require Import geodesy.
 Open Scope R_scope.
 
@@ -113,13 +113,54 @@ Theorem geodetic_spherical_inverse : forall a h lat lon, 0 < a + h -> -90 < lat 
   (let '(x, y, z) := geodetic2cart h lat lon a 0 in cart2geodetic_sph x y z a) = (h, lat, lon).
 Proof. exact geodetic_spherical_inverse. Qed.
 
-(* NAMED GAP (DESIGN rung 4, stretch): iteration_accuracy
-     forall a e h lat lon, 0 < a -> 0 <= e <= 0.11 -> -88 <= lat <= 88 -> -10000 <= h <= 1000000 ->
-       the map geod_T is a contraction with factor <= 0.02 around the true latitude, hence the iterate returned under
-       the stop criterion tol is within tol / (1 - 0.02) rad of the true latitude and within
-       (N + h) tan(88 deg) * tol / 0.98 of the true height (2.2e-4 m for tol = 1e-12).
-   Not proved; the accuracy over the domain is checked numerically on the implementation by the law sweep of
-   tools/props/c07.py, and the stop criterion itself is tied to the model by interval enclosures. *)
+(* ---- the iteration of cart2geodetic converges to the stated accuracy (the former named gap iteration_accuracy) ------ *)
+(* the loop body T is Lipschitz on the whole open interval of latitudes, with the explicit constant
+   e^2 a / (sqrt (1 - e^2) D0), for every point (p, z) that is at least D0 away from all centres of curvature
+   (e^2 N cos B, 0), 0 <= e^2 N cos B <= e^2 a  (mean value theorem; T' = z e^2 g' / ((p - e^2 g)^2 + z^2)) *)
+Theorem geodetic_iteration_lipschitz : forall a e2 p z D0,
+  0 < a -> 0 <= e2 < 1 -> e2 * a < p -> 0 < D0 -> D0 ^ 2 <= (p - e2 * a) ^ 2 + z ^ 2 ->
+  forall B1 B2, - (PI / 2) < B1 < PI / 2 -> - (PI / 2) < B2 < PI / 2 ->
+  Rabs (geod_T a e2 p z B1 - geod_T a e2 p z B2) <= e2 * a / (sqrt (1 - e2) * D0) * Rabs (B1 - B2).
+Proof. exact iteration_lipschitz_general. Qed.
+
+(* every model of the generated table has 3000 km <= a <= 70000 km and e <= 0.11: the next three theorems cover all six *)
+Theorem all_ellipsoid_models_in_iteration_domain :
+  Forall (fun m : String.string * (R * R) => 3000000 <= fst (snd m) <= 70000000 /\ 0 <= snd (snd m) <= 0.11) ellipsoid_models.
+Proof. exact ellipsoid_table_in_iteration_domain. Qed.
+
+(* on the stated domain the loop body contracts with q = 0.0126 (~ e^2 N / (N + h)), between any two latitudes and
+   towards the true geodetic latitude *)
+Theorem iteration_contraction : forall a e h lat lon,
+  3000000 <= a <= 70000000 -> 0 <= e <= 0.11 -> -10000 <= h <= 1000000 -> -88 <= lat <= 88 ->
+  let '(x, y, z) := geodetic2cart h lat lon a e in
+  let T := geod_T a (e ^ 2) (hypot x y) z in
+  (forall B1 B2, - (PI / 2) < B1 < PI / 2 -> - (PI / 2) < B2 < PI / 2 -> Rabs (T B1 - T B2) <= 0.0126 * Rabs (B1 - B2)) /\
+  (forall B, - (PI / 2) < B < PI / 2 -> Rabs (T B - lat * PI / 180) <= 0.0126 * Rabs (B - lat * PI / 180)).
+Proof. exact iteration_contraction. Qed.
+
+(* a-posteriori: ANY latitude B at which the stop criterion |B - T(B)| <= tol holds is within tol / (1 - q) of the true
+   latitude; for tol <= 2e-12 rad the latitude is within 2e-10 deg (stated: 1e-7) and the height the code computes at B
+   within 5 mm (stated: 1 cm) of the true geodetic position *)
+Theorem iteration_accuracy : forall a e h lat lon,
+  3000000 <= a <= 70000000 -> 0 <= e <= 0.11 -> -10000 <= h <= 1000000 -> -88 <= lat <= 88 ->
+  let '(x, y, z) := geodetic2cart h lat lon a e in
+  let p := hypot x y in
+  forall B tol, - (PI / 2) < B < PI / 2 -> Rabs (B - geod_T a (e ^ 2) p z B) <= tol ->
+    Rabs (B - lat * PI / 180) <= tol / (1 - 0.0126) /\
+    (tol <= 2e-12 -> Rabs (B * 180 / PI - lat) <= 2e-10 /\ Rabs (geod_h a (e ^ 2) p B - h) <= 0.005).
+Proof. exact iteration_accuracy. Qed.
+
+(* total correctness of the loop on the domain: started at atan2(z, p) with the tolerance of the code (1e-12; any
+   tolerance in [1e-12, 2e-12]) it stops after at most 8 passes and returns the position to 2e-10 deg / 5 mm;
+   the longitude is exact *)
+Theorem cart2geodetic_terminates_within_accuracy : forall a e h lat lon,
+  3000000 <= a <= 70000000 -> 0 <= e <= 0.11 -> -10000 <= h <= 1000000 -> -88 <= lat <= 88 -> -180 < lon <= 180 ->
+  let '(x, y, z) := geodetic2cart h lat lon a e in
+  let p := hypot x y in
+  forall tol fuel, 1e-12 <= tol <= 2e-12 -> (8 <= fuel)%nat ->
+    exists B, geod_loop a (e ^ 2) p z tol fuel (atan2 z p) = Some B /\
+      Rabs (B * 180 / PI - lat) <= 2e-10 /\ Rabs (geod_h a (e ^ 2) p B - h) <= 0.005 /\ atan2 y x * 180 / PI = lon.
+Proof. exact cart2geodetic_total. Qed.
 
 (* ---- position + line of sight: zenith AND azimuth angle are returned ------------------------------------------ *)
 Theorem los_angles_recovered : forall r lat lon za aa,
@@ -142,6 +183,14 @@ Example inverse_hypotheses_nonvacuous :
   0 < 6378137 /\ 0 <= 0.0818191908426 < 1 /\ -90 < 45 < 90 /\ -180 < 180 <= 180 /\
   - (6378137 * (1 - 0.0818191908426 ^ 2)) < -10000 /\ In ("WGS84"%string, (6378137, 0.0818191908426)) ellipsoid_models.
 Proof. repeat split; try lra. right. left. reflexivity. Qed.
+
+(* the hypotheses of the iteration theorems are met at the worst-conditioned corner of the domain, for WGS84 and for
+   the most eccentric model of the table *)
+Example iteration_hypotheses_nonvacuous :
+  (3000000 <= 6378137 <= 70000000 /\ 0 <= 0.0818191908426 <= 0.11 /\ -10000 <= -10000 <= 1000000 /\ -88 <= 88 <= 88 /\
+   -180 < -180 + 1 <= 180 /\ 1e-12 <= 1e-12 <= 2e-12 /\ (8 <= 8)%nat) /\
+  In ("EllipsoidMars"%string, (3396190, 0.1083)) ellipsoid_models /\ 3000000 <= 3396190 <= 70000000 /\ 0 <= 0.1083 <= 0.11.
+Proof. repeat split; try lra; try apply le_n. do 4 right. left. reflexivity. Qed.
 
 (* antipodal points on the equator: the arc is half the circumference, the chord the diameter *)
 Example antipodal_points : tunnel 1 0 0 0 180 = 2.
@@ -173,5 +222,10 @@ Print Assumptions geodetic_fixed_point.
 Print Assumptions fixed_point_maps_back.
 Print Assumptions geodetic_loop_stops_at_an_iterate.
 Print Assumptions geodetic_spherical_inverse.
+Print Assumptions geodetic_iteration_lipschitz.
+Print Assumptions all_ellipsoid_models_in_iteration_domain.
+Print Assumptions iteration_contraction.
+Print Assumptions iteration_accuracy.
+Print Assumptions cart2geodetic_terminates_within_accuracy.
 Print Assumptions los_angles_recovered.
 Print Assumptions great_circle_triangle_inequality.
